@@ -93,6 +93,9 @@ def c06(tier, seed):
     sc2 = ["nq,nq|pa", "nq,nq|po,po", "nq,nq|tk,pa", "nq,nq,nq|pi,pa", "nq,nq,nq|pu,pa", "nq,nq,nq,nq|pu,pa", "nq,nq|cl,pa", "nq,nq|pk,tk", "nq,pa|nq,po", "nq,nq|pa,pa"]
     sc3 = ["nq,nq|nq|pa,pa", "nq,nq|po,po|pa", "nq,nq,nq|pi|pu", "nq,nq|tk|pa", "nq,nq|cl|po,po", "nq|nq,pa|pi,pa"]
     scen = [{"scenario": s} for s in sc2] + [{"scenario": s, "max": 2500 if quick else 80000} for s in sc3]
+    # slot re-use: enqueues that find recycled slots in the free list while another producer / consumer works on it (ConcSlotsMC's scenario shapes; seed S109)
+    for sx in ["nq,nq,pa,nq|nq", "nq,nq,pa,nq|pa,nq", "nq,po,nq|po,nq", "nq,nq,pa,nq,nq|nq,nq"]:
+        scen.append({"scenario": sx, "bound": 2, "max": 3000 if quick else 60000})
     scen += cq_generated("C06", tier, seed, set(x["scenario"] for x in scen))
     models = [{"module": "ConcQueueMC", "tag": "2threads", "cfg": mc_cfg([1, 2], "Scen2")},
               # the slot protocol ConcQueue abstracts away: queueList / freeList / private lists, double-checked pops, clear before recycle
